@@ -102,13 +102,6 @@ theorem C20_axes_signs (ref tgt : V3 ℝ) :
   · intro h1 h2; rw [hx, hy, if_neg (not_le.mpr h1), if_neg (not_le.mpr h2)]
     constructor <;> linarith
 
-theorem rad_le_iff (a b : ℝ) : a ≤ b ↔ 0 ≤ rad b - rad a := by
-  unfold rad
-  have : 0 < π / 180 := by positivity
-  constructor
-  · intro h; nlinarith
-  · intro h; nlinarith
-
 /-- Signed closed form of the conversion (`|φ₀| ≤ π/2`, `|Δφ| ≤ π`, `|Δλ| ≤ π`):
     `x = 2R·arcsin(cos φ₀·sin(Δλ/2))`, `y = R·Δφ`, `z = Δalt` — odd in `Δλ` resp. `Δφ`, which is
     the sign rule of all four quadrants in one formula. -/
@@ -202,27 +195,6 @@ theorem C20_goto_geo {S σ : Type} [Scalar S] (cfg : Config S) (n : NodeId) (p :
       = Sim.execReq cfg n (.goto (geoToCartesian cfg.refGeo p)) w := rfl
 
 /-! ### the defect F20: the pinned assignment of the legs -/
-
-/-- the pinned `geo_to_cartesian`: the north–south leg is assigned to `x` (and signed by the
-    longitude), the east–west leg to `y` (signed by the latitude) -/
-def geoToCartesianPinned {S : Type} [Scalar S] (ref tgt : V3 S) : V3 S :=
-  let dx := haversine ref.x ref.y tgt.x ref.y
-  let dy := haversine ref.x ref.y ref.x tgt.y
-  let x := if Scalar.ge tgt.y ref.y then dx else Scalar.neg dx
-  let y := if Scalar.ge tgt.x ref.x then dy else Scalar.neg dy
-  let z := Scalar.sub tgt.z ref.z
-  ⟨x, y, z⟩
-
-theorem haversine_parallel_symm (lat lon d : ℝ) :
-    haversine lat lon lat (lon + d) = haversine lat lon lat (lon - d) := by
-  rw [haversine_real, haversine_real]
-  have h1 : rad (lon + d) - rad lon = rad d := by unfold rad; ring
-  have h2 : rad (lon - d) - rad lon = -rad d := by unfold rad; ring
-  rw [h1, h2]
-  have : havA (rad lat) (rad lat) (-rad d) = havA (rad lat) (rad lat) (rad d) := by
-    unfold havA
-    rw [neg_div, sin_neg, neg_sq]
-  rw [this]
 
 /-- **F20 on the pinned variant.**  Two targets `a` degrees north (or south) of the reference and
     `b > 0` degrees east resp. west of it (`|a| ≤ 180°`) — mirror images in the reference meridian,
